@@ -276,6 +276,29 @@ def check(children, top, share, acc, case):
         acc.n("rejected_leaf_referencing_compound_or_class_variant(not claimed)")
     if acc.counts["traces"] % 20000 == 1:
         acc.sample({"model": describe(obj), "errors": [str(e) for e in errs], "reference_reasons": reasons})
+    if accepted and not share and case.get("kind") in ("wrap", "wraps", "wrapf", "pairs"):
+        # history: a model that was validated is EDITED IN PLACE (one of two equal copies of a compound gets another child of the same
+        # bounds) and validated again: the verdict must be about the model as it is now, not about what was seen at the first call
+        twins = {}
+        for o in walk(obj).values():
+            if not is_var(o) and len(o.propositions) >= 1 and is_var(o.propositions[-1]):
+                twins.setdefault(o.id, []).append(o)
+        pair = next((v for v in twins.values() if len(v) >= 2), None)
+        if pair is not None:
+            victim = pair[1]
+            old = victim.propositions[-1]
+            try:
+                victim.propositions[-1] = puan.variable("zq", old.bounds.as_tuple())
+                errs2 = obj.errors()
+            except BaseException as e:
+                acc.violation(None, dict(case, edited=True), {"what": "errors() raised after an in-place edit", "exc": repr(e)})
+                return
+            acc.n("transitions")
+            reasons2, _ = well_defined(obj)
+            acc.hist("after_in_place_edit: errors()_accepts / reference_accepts", (errs2 == [], not reasons2))
+            if errs2 == [] and reasons2:
+                acc.violation(None, dict(case, edited=True), {"what": "errors()==[] after an in-place edit made the model ill-defined (the verdict of the first call was kept)",
+                                                              "reasons": reasons2, "model": describe(obj)})
 
 
 def describe(obj):
